@@ -9,6 +9,8 @@ CONSTANTS
  EncMaxLen = 3
  MaxLen = 0
  MaxOps = 1
+ TmpPaths = {"p", "q"}
+ QueryKinds = {}
  KeepHist = TRUE
 VIEW View
 ACTION_CONSTRAINT Emit
